@@ -1,0 +1,100 @@
+//go:build verif
+
+// Contracts written in the fourth session: aggregate functions (C04), ...
+package query
+
+// ---------------------------------------------------------------------------------------------
+// C04: "each aggregate is computed over exactly the rows of its bucket": the list handed to an aggregate function holds
+// the values of the bucket's rows; the functions below are proved to account for every element of that list.
+
+// number of non-NULL values among the first k elements
+//@ spec func nnCount(s []value.Primary, k int) int reads elems(s)
+//@ axiom nn_zero: forallv(s, []value.Primary, nnCount(s, 0) == 0)
+//@ axiom nn_step: forallv(s, []value.Primary, forall(k, 0, MaxInt64, nnCount(s, k + 1) == nnCount(s, k) + ite(s[k] == value.null, 0, 1)))
+//@ axiom nn_unfold: forallv(s, []value.Primary, forall(m, 1, MaxInt64, nnCount(s, m) == nnCount(s, m - 1) + ite(s[m - 1] == value.null, 0, 1)))
+//@ axiom nn_bounds: forallv(s, []value.Primary, forall(k, 0, MaxInt64, 0 <= nnCount(s, k) && nnCount(s, k) <= k))
+
+//@ func Count
+//@   property C04
+//@   safety
+//@   ensures [counts-every-non-null-value] is(result, *value.Integer) && as(result, *value.Integer).value == nnCount(list, len(list))
+//@   loop 1 invariant 0 <= $i && $i <= len(list) && count == nnCount(list, $i)
+//@   modifies nothing
+
+// ---------------------------------------------------------------------------------------------
+// C01: which tables COMMIT writes and ROLLBACK restores. The transaction keeps the changed tables in two maps; the lists
+// handed to Commit / Rollback are proved to be exactly the file-typed entries (to be written / deleted) and exactly the
+// in-memory entries (temporary tables and STDIN: restore points), using the language fact that a range over a map visits
+// every entry once (visited(k), see DESIGN 10.5).
+//@ spec def inMem(f *FileInfo) bool = f.ViewType == ViewTypeStdin || f.ViewType == ViewTypeTemporaryTable
+//@ func (*UncommittedViews).UncommittedTempViews
+//@   property C01
+//@   inline
+//@   requires m != nil
+//@   ensures [only-updated-in-memory-tables] forallv(k, string, has(result, k) ==> has(m.Updated, k) && result[k] == m.Updated[k] && inMem(m.Updated[k]))
+//@   ensures [every-updated-in-memory-table] forallv(k, string, has(m.Updated, k) && inMem(m.Updated[k]) ==> has(result, k))
+//@   loop 1 invariant fresh(updatedViews) && forallv(k, string, has(updatedViews, k) ==> has(m.Updated, k) && updatedViews[k] == m.Updated[k] && inMem(m.Updated[k]))
+//@   loop 1 invariant forallv(k, string, visited(k) && has(m.Updated, k) && inMem(m.Updated[k]) ==> has(updatedViews, k))
+//@   loop 1 modifies fresh
+//@   modifies mutexHeld, fresh
+//@ spec def isFileInfo(f *FileInfo) bool = f.ViewType == ViewTypeFile
+//@ spec def createdOk(m *UncommittedViews, c map[string]*FileInfo) bool = forallv(k, string, has(c, k) ==> has(m.Created, k) && c[k] == m.Created[k] && isFileInfo(m.Created[k]))
+//@ spec def createdAll(m *UncommittedViews, c map[string]*FileInfo) bool = forallv(k, string, has(m.Created, k) && isFileInfo(m.Created[k]) ==> has(c, k))
+//@ spec def updatedOk(m *UncommittedViews, u map[string]*FileInfo) bool = forallv(k, string, has(u, k) ==> has(m.Updated, k) && u[k] == m.Updated[k] && isFileInfo(m.Updated[k]))
+//@ func (*UncommittedViews).UncommittedFiles
+//@   property C01 C10
+//@   inline
+//@   requires m != nil
+//@   ensures [only-created-files] createdOk(m, result0)
+//@   ensures [every-created-file] createdAll(m, result0)
+//@   ensures [only-updated-files] updatedOk(m, result1)
+//@   ensures [every-updated-file] forallv(k, string, has(m.Updated, k) && isFileInfo(m.Updated[k]) ==> has(result1, k))
+//@   loop 1 invariant fresh(createdFiles) && fresh(updatedFiles) && createdFiles != updatedFiles && createdOk(m, createdFiles)
+//@   loop 1 invariant forallv(k, string, visited(k) && has(m.Created, k) && isFileInfo(m.Created[k]) ==> has(createdFiles, k))
+//@   loop 1 invariant forallv(k, string, !has(updatedFiles, k))
+//@   loop 1 modifies fresh
+//@   loop 2 invariant fresh(createdFiles) && fresh(updatedFiles) && createdFiles != updatedFiles && createdOk(m, createdFiles) && createdAll(m, createdFiles) && updatedOk(m, updatedFiles)
+//@   loop 2 invariant forallv(k, string, visited(k) && has(m.Updated, k) && isFileInfo(m.Updated[k]) ==> has(updatedFiles, k))
+//@   loop 2 modifies fresh
+//@   modifies mutexHeld, fresh
+// a table is marked at most once: as created or as updated, never both; marking never touches another table's entry
+//@ spec def idPath(f *FileInfo) string = ite(0 < len(f.ArchivePath), strings.ToUpper(f.Path) + " IN " + strings.ToUpper(f.ArchivePath), strings.ToUpper(f.Path))
+//@ func (*UncommittedViews).SetForUpdatedView
+//@   property C01
+//@   inline
+//@   requires m != nil && fileInfo != nil && m.Created != nil && m.Updated != nil && m.Created != m.Updated
+//@   ensures [marked-unless-already-known] has(m.Updated, idPath(fileInfo)) || has(m.Created, idPath(fileInfo))
+//@   ensures [first-mark-wins] old(has(m.Updated, idPath(fileInfo))) ==> m.Updated[idPath(fileInfo)] == old(m.Updated[idPath(fileInfo)])
+//@   ensures [other-tables-untouched] forallv(k, string, k != idPath(fileInfo) ==> has(m.Updated, k) == old(has(m.Updated, k)) && m.Updated[k] == old(m.Updated[k]))
+//@   ensures [created-list-untouched] forallv(k, string, has(m.Created, k) == old(has(m.Created, k)) && m.Created[k] == old(m.Created[k]))
+//@   ensures [never-both] old(has(m.Created, idPath(fileInfo))) ==> has(m.Updated, idPath(fileInfo)) == old(has(m.Updated, idPath(fileInfo)))
+//@   modifies mutexHeld, m.Updated[*]
+//@ func (*UncommittedViews).SetForCreatedView
+//@   property C01
+//@   inline
+//@   requires m != nil && fileInfo != nil && m.Created != nil && m.Updated != nil && m.Created != m.Updated
+//@   ensures [marked-unless-already-known] has(m.Updated, idPath(fileInfo)) || has(m.Created, idPath(fileInfo))
+//@   ensures [other-tables-untouched] forallv(k, string, k != idPath(fileInfo) ==> has(m.Created, k) == old(has(m.Created, k)) && m.Created[k] == old(m.Created[k]))
+//@   ensures [updated-list-untouched] forallv(k, string, has(m.Updated, k) == old(has(m.Updated, k)) && m.Updated[k] == old(m.Updated[k]))
+//@   ensures [never-both] old(has(m.Updated, idPath(fileInfo))) ==> has(m.Created, idPath(fileInfo)) == old(has(m.Created, idPath(fileInfo)))
+//@   modifies mutexHeld, m.Created[*]
+//@ func (*UncommittedViews).Unset
+//@   property C01
+//@   inline
+//@   requires m != nil && fileInfo != nil && m.Created != nil && m.Updated != nil && m.Created != m.Updated
+//@   ensures [unmarked] !has(m.Updated, idPath(fileInfo)) || (old(has(m.Updated, idPath(fileInfo))) && old(has(m.Created, idPath(fileInfo))))
+//@   ensures [other-tables-untouched] forallv(k, string, k != idPath(fileInfo) ==> has(m.Updated, k) == old(has(m.Updated, k)) && has(m.Created, k) == old(has(m.Created, k)))
+//@   modifies mutexHeld, m.Updated[*], m.Created[*]
+
+// C05: UPDATE stores the assigned value into the named column of the matched row: after the assignment of one SET item the
+// cell of that column holds the value the item's expression evaluated to (whatever the cell held before, also a value that
+// compares equal to it).
+//@ func Update!assign
+//@   property C05
+//@   abstract *
+//@   loop 3 step [named-column-gets-the-assigned-value] viewsToUpdate[viewref].RecordSet[internalId][fieldIdx][0] == val
+//@   modifies *
+//@ func NewCell
+//@   property C05
+//@   ensures [one-value-cell] len(result) == 1 && result[0] == val && fresh(result)
+//@   modifies nothing
